@@ -23,7 +23,7 @@ WORLDS = {
     "cg": ("C12", 24000, 1600000, [("default", {}, 1.0)]),
     "pg": ("C13", 4800, 300000, [("default", {}, 0.99), ("history", {}, 0.01, {"fresh_per_session": True})]),
     "lls": ("C14", 640, 40000, [("default", {}, 1.0)]),
-    "stop": ("C15", 9600, 600000, [("default", {}, 1.0)]),
+    "stop": ("C15", 48000, 1200000, [("default", {}, 1.0)]),
     "rng": (
         "C18",
         480,
